@@ -254,7 +254,11 @@ def eval_leaf(model, x):
             return z3.is_true(model.eval(x.v, model_completion=True)), not _has_uf(x.v)
         if x.nan is not None and z3.is_true(model.eval(x.nan, model_completion=True)):
             return "nan", True
-        v = core.frac_of(model.eval(x.v, model_completion=True))
+        try:
+            v = core.frac_of(z3.simplify(model.eval(x.v, model_completion=True)))
+        except core.EngineError:
+            # the model leaves an application of an uninterpreted function unevaluated: no concrete expectation for this leaf
+            return "<uf?>", False
         exact = not _has_uf(x.v)
         return (int(v) if x._kind == "i" else float(v)), exact
     if hasattr(x, "_buf"):
